@@ -46,6 +46,7 @@ class Expander:
         self.budget = 400000
         self.int_bound = 4
         self.side = []        # closure constraints for terms under binders that are not expanded
+        self.int_domains = {}  # Int -> Bool arrays (int-keyed dicts / sets) restricted to 0..int_bound-1
 
     def tr(self, t):
         i = t.get_id()
@@ -94,14 +95,15 @@ class Expander:
         parts = []
         for combo in itertools.product(*doms):
             b = z3.substitute(body, *[(cs[k], v) for k, v in zip(exp, combo)])
+            if keep:
+                # the variables that stay are quantified again inside every instance (forall distributes over the
+                # conjunction, exists over the disjunction): a bound that depended on an expanded variable
+                # (j < len(d[k])) is ground now and is recognised by the recursive call
+                b = z3.ForAll(keep, b) if t.is_forall() else z3.Exists(keep, b)
             parts.append(self.tr(b))
         if any(p_.sort() != z3.BoolSort() for p_ in parts):
             raise z3.Z3Exception('non-bool part: ' + str([(p_.sort(), p_.sexpr()[:200]) for p_ in parts if p_.sort() != z3.BoolSort()][:2]) + ' FROM ' + t.sexpr()[:300])
-        r = z3.And(parts) if t.is_forall() else z3.Or(parts)
-        if keep:
-            self._side(r, keep)
-            r = z3.ForAll(keep, r) if t.is_forall() else z3.Exists(keep, r)
-        return r
+        return z3.And(parts) if t.is_forall() else z3.Or(parts)
 
     def _int_bounds(self, t, cs, body):
         """Int variables guarded by 0 <= v and v < T (resp. <=): expanded over 0..N-1 under the added constraint
@@ -153,6 +155,10 @@ class Expander:
             if kind not in (z3.Z3_OP_LE, z3.Z3_OP_LT):
                 continue
             # a <= b  /  a < b
+            if (z3.is_add(a) and a.num_args() == 2 and z3.is_int_value(a.arg(0)) and a.arg(1).get_id() in ids
+                    and not _mentions(b, set(ids))):
+                # c + v <= b (z3.simplify writes v < k + 1 as not(k <= -1 + v)): v <= b - c
+                a, b = a.arg(1), b - a.arg(0)
             if b.get_id() in ids and z3.is_int_value(a) and a.as_long() >= (0 if kind == z3.Z3_OP_LE else -1):
                 lower.add(ids[b.get_id()])
             if a.get_id() in ids and cs[ids[a.get_id()]].sort() == z3.IntSort():
@@ -205,6 +211,20 @@ class Expander:
                 if not _mentions(b, set(ids)):
                     self.side.append(b <= (N if kind == z3.Z3_OP_LT else N - 1))
             out[k] = [z3.IntVal(v) for v in range(N)]
+        # Int variables guarded by membership in an int-keyed dict / set (a conjunct A[v] with A : Int -> Bool free of the
+        # bound variables): expanded over 0..N-1 under the added quantifier-free constraint that A holds nowhere else
+        # (A equals an explicit array over 0..N-1), which makes the expansion exact
+        for g in conj:
+            if (z3.is_select(g) and g.arg(1).get_id() in ids and ids[g.arg(1).get_id()] not in out
+                    and g.arg(1).sort() == z3.IntSort() and g.sort() == z3.BoolSort() and not _mentions(g.arg(0), set(ids))):
+                a = g.arg(0)
+                if a.get_id() not in self.int_domains:
+                    fin = z3.K(z3.IntSort(), z3.BoolVal(False))
+                    for v in range(N):
+                        fin = z3.Store(fin, v, _fresh('member', z3.BoolSort()))
+                    self.int_domains[a.get_id()] = a       # keeps the term alive (ids are recycled)
+                    self.side.append(a == fin)
+                out[ids[g.arg(1).get_id()]] = [z3.IntVal(v) for v in range(N)]
         return out
 
     def _side(self, body, binders):
